@@ -26,7 +26,8 @@ CHUNK = {'quick': 25, 'thorough': 50}
 RULE = ('one case = one seeded deployment (backend, meta size/buffer, minimize_meta_requests, bulk_meta_tiles, '
         'concurrent_tile_creators, 1-3 processes x 1-3 client threads, 1-2 requests each for the same tile / tiles of one '
         'meta tile / neighbouring meta tiles / the same bundle) in one of the modes plain, stalled-holder, upstream-failure, '
-        'process-kill, under one seeded schedule; non-trivial = at least two client tasks needed the same meta tile while it '
+        'process-kill, under one seeded schedule (and, rarely, a lock-identity case: two separately started interpreters with '
+        'different hash seeds must give the tile, meta tile and bundle locks the same file names); non-trivial = at least two client tasks needed the same meta tile while it '
         'was uncached and overlapped in time (one waited for the lock or re-checked under it); distinct = distinct hash of '
         'the scheduler event log')
 COMPONENTS = {
@@ -38,6 +39,8 @@ COMPONENTS = {
              'file system + flock (SimFS)', 'clock', 'scheduler choice', 'queue.Queue (SimQueue)'],
 }
 ASSUMPTIONS = [
+    'lock-identity case: the two interpreters are real subprocesses (fresh python, PYTHONHASHSEED differs); everything else runs '
+    'as simulated processes inside one interpreter, which therefore share hash(), id() and module state',
     '"exactly the correct tiles" = no incorrect tile, no tile outside the grid, and every served cacheable tile present; extra '
     'correct tiles of the same meta tile are expected',
     'one fetch per meta tile is asserted in the fault-free modes; with upstream failures at most one SUCCESSFUL fetch per meta '
